@@ -68,6 +68,9 @@ def run_job(job, w):
         if "steps" in sc:
             run_engine_scenario(sc, w, job)
             continue
+        if sc.get("kind") == "repeating":
+            run_repeating_scenario(sc, w, job)
+            continue
         flowir, script, extra = build(sc)
         policy = oracles.c12_policy(sc["wa"])
         cap = len(sc["seq"]) + 2     # launches can never exceed the script length + the implicit final success
@@ -138,6 +141,39 @@ def run_engine_scenario(sc, w, job):
                     {"scenario": sc, "policy": policy, "violation": v,
                      "trace": [{k: e[k] for k in e if k not in ("thread", "preds", "graph_preds")} for e in r["events"]
                                if e["kind"] not in ("storm.wake", "output")][:120]}, finding_key=classify(v, sc, policy))
+
+
+def run_repeating_scenario(sc, w, job):
+    """Third slice: RepeatingEngine.restart (at most one, only after ResourceExhausted)."""
+    from rt import enginedrive
+    loc = vlib.mkscratch("c12r")
+    try:
+        r = enginedrive.run_repeating_restart(sc, loc, watchdog_s=job.get("watchdog_s", 90.0))
+    finally:
+        shutil.rmtree(loc, ignore_errors=True)
+    w.evaluated()
+    w.count("rep_runs")
+    if r["build_error"]:
+        w.count("build_errors")
+        w.note_inconclusive("repeating-slice scenario did not load: %s" % r["build_error"])
+        return
+    viol, cnt = enginedrive.judge_repeating(sc, r)
+    for k, v in cnt.items():
+        w.count(k, v)
+    w.distinct("rep|%s|%s" % ([e.get("reason") for e in sc["obs_script"]], sc["obs_tail"].get("reason")))
+    for v in viol:
+        w.violation("repeating-slice %s %s" % (v["clause"], {k: v[k] for k in v if k != "clause"}),
+                    {"scenario": sc, "violation": v,
+                     "trace": [{k: e[k] for k in e if k not in ("thread", "preds", "graph_preds")} for e in r["events"]
+                               if e["kind"] in ("launch", "exit", "drive.restart", "drive.dead", "engine.kill",
+                                                "notify_all_producers_finished")][:80]}, finding_key=None)
+
+
+def gen_repeating_scenario(rng):
+    reasons = ["ResourceExhausted", "ResourceExhausted", "KnownIssue", "Success", "SystemIssue"]
+    return {"kind": "repeating", "retries": rng.choice([0, 0, 1]),
+            "obs_script": [{"reason": rng.choice(reasons), "duration": 0.5} for _ in range(rng.randint(0, 2))],
+            "obs_tail": {"reason": rng.choice(reasons), "duration": 0.5}, "notify_at": rng.choice([0.5, 3.0])}
 
 
 def gen_engine_scenario(rng):
@@ -258,7 +294,7 @@ def main():
         # engine slice on a quarter of the children (K=10: the kill placement needs wider real-time margins)
         for j in jobs[::4]:
             j["K"] = 10.0
-            j["scenarios"] = [gen_engine_scenario(rng) for _ in range(6)]
+            j["scenarios"] = [gen_engine_scenario(rng) for _ in range(6)] + [gen_repeating_scenario(rng) for _ in range(4)]
         vlib.fanout("checks.C12", jobs, c, timeout=1500)
         rnd += 1
         if c.evaluations >= floor_runs or c.elapsed() > budget:
@@ -271,6 +307,7 @@ def main():
     c.floor("hook_calls", 20)
     c.floor("eng_restart_calls", 30)
     c.floor("eng_kills_in_prelaunch_window", 5)
+    c.floor("rep_restart_calls", 8)
     sys.exit(c.finish())
 
 
